@@ -64,7 +64,7 @@ impl<'a, const N: usize> FixR<'a, N> {
         self.ops += 1;
         if k >= self.fail_from {
             self.failed = true;
-            return Err(Error::new(ErrorKind::Other, "injected"));
+            return Err(Error::from(ErrorKind::Other));
         }
         Ok(())
     }
@@ -90,6 +90,34 @@ impl<'a, const N: usize> Read for FixR<'a, N> {
         }
         self.pos += n as u64;
         Ok(n)
+    }
+    fn read_exact(&mut self, out: &mut [u8]) -> Result<()> {
+        if self.frag {
+            struct ViaDefault<'x, 'a, const N: usize>(&'x mut FixR<'a, N>);
+            impl<'x, 'a, const N: usize> Read for ViaDefault<'x, 'a, N> {
+                fn read(&mut self, o: &mut [u8]) -> Result<usize> { self.0.read(o) }
+            }
+            ViaDefault(self).read_exact(out)
+        } else {
+            self.read_exact_whole(out)
+        }
+    }
+}
+
+#[cfg(any(kani, verif_replay))]
+impl<'a, const N: usize> FixR<'a, N> {
+    /// non-fragmenting fast path used by `read_exact`
+    fn read_exact_whole(&mut self, out: &mut [u8]) -> Result<()> {
+        let avail = if self.pos < self.len { (self.len - self.pos) as usize } else { 0 };
+        if out.len() > avail {
+            // what std's read_exact loop ends in: partial reads, then Ok(0) => UnexpectedEof
+            let _ = self.read(out)?;
+            return Err(Error::from(ErrorKind::UnexpectedEof));
+        }
+        match self.read(out) {
+            Ok(_) => Ok(()),
+            Err(e) => Err(e),
+        }
     }
 }
 
@@ -140,7 +168,7 @@ impl<'a, const N: usize> FixW<'a, N> {
         self.ops += 1;
         if k >= self.fail_from {
             self.failed = true;
-            return Err(Error::new(ErrorKind::Other, "injected"));
+            return Err(Error::from(ErrorKind::Other));
         }
         Ok(())
     }
@@ -167,6 +195,23 @@ impl<'a, const N: usize> Write for FixW<'a, N> {
         self.pos += n as u64;
         if self.pos > self.end { self.end = self.pos; }
         Ok(n)
+    }
+    /// A stream that accepts every byte it is offered (frag off) completes `write_all` with one
+    /// `write`; with a fragmenting schedule the standard library's own default `write_all` loop runs.
+    fn write_all(&mut self, data: &[u8]) -> Result<()> {
+        if self.frag {
+            struct ViaDefault<'x, 'a, const N: usize>(&'x mut FixW<'a, N>);
+            impl<'x, 'a, const N: usize> Write for ViaDefault<'x, 'a, N> {
+                fn write(&mut self, d: &[u8]) -> Result<usize> { self.0.write(d) }
+                fn flush(&mut self) -> Result<()> { self.0.flush() }
+            }
+            ViaDefault(self).write_all(data)
+        } else {
+            match self.write(data) {
+                Ok(_) => Ok(()),
+                Err(e) => Err(e),
+            }
+        }
     }
     fn flush(&mut self) -> Result<()> {
         self.op()?;
